@@ -14,6 +14,8 @@ pub enum Res {
     Ok,
     /// Parsed Ok but the value is not sane: (failure class, detail)
     Bad(String, String),
+    /// several distinct failure classes (the lookup battery)
+    Many(Vec<(String, String)>),
 }
 
 pub struct Parser {
@@ -270,26 +272,46 @@ pub fn chk_sdur_range(d: SignedDuration) -> Option<(String, String)> {
 /// the zone contains a digit but neither '+' nor '-' (such an abbreviation can
 /// only have been written in the quoted `<...>` form).
 fn abbrev_class(tz: &TimeZone) -> &'static str {
-    for m in 0..12i64 {
-        let Ok(ts) = Timestamp::from_second(1_704_067_200 + m * 2_629_800) else { continue };
-        let info = tz.to_offset_info(ts);
-        let a = info.abbreviation();
-        if a.bytes().any(|c| c.is_ascii_digit()) && !a.contains('+') && !a.contains('-') {
+    let hit = |a: &str| a.bytes().any(|c| c.is_ascii_digit()) && !a.contains('+') && !a.contains('-');
+    let Ok(start) = Timestamp::from_second(1_704_067_200) else { return "" };
+    if hit(tz.to_offset_info(start).abbreviation()) {
+        return "[abbreviation-with-digit-but-no-sign]";
+    }
+    // both abbreviations of a POSIX rule show up within its next transitions
+    for t in tz.following(start).take(4) {
+        if hit(t.abbreviation()) {
             return "[abbreviation-with-digit-but-no-sign]";
         }
     }
     ""
 }
 
-fn chk_tz(tz: &TimeZone, reparse: fn(&str) -> Result<TimeZone, jiff::Error>) -> Option<(String, String)> {
+/// Equality of zones as values. `TimeZone::get("UTC")` is the built-in UTC
+/// while any other spelling ("Utc") loads the file named UTC; jiff's `==`
+/// tells those apart although they are the same zone with the same name, so
+/// zones with equal IANA names are taken as equal here.
+fn tz_same(a: &TimeZone, b: &TimeZone) -> bool {
+    a == b || (a.iana_name().is_some() && a.iana_name() == b.iana_name())
+}
+
+fn chk_tz(tz: &TimeZone, reparse: fn(&str) -> Result<TimeZone, jiff::Error>) -> Res {
+    let mut v = vec![];
     match TPR.time_zone_to_string(tz) {
         Err(_) => {}
         Ok(text) => match reparse(&text) {
-            Ok(b) if b == *tz => {}
-            other => return bad(format!("ok-value-reparse:TimeZone{}", abbrev_class(tz)), format!("{:?} printed {:?} re-parsed {:?}", tz, text, other.map(|_| "a different zone").map_err(|e| e.to_string()))),
+            Ok(b) if tz_same(&b, tz) => {}
+            other => v.push((
+                format!("ok-value-reparse:TimeZone{}", abbrev_class(tz)),
+                format!("{:?} printed {:?} re-parsed {:?}", tz, text, other.map(|_| "a different zone").map_err(|e| e.to_string())),
+            )),
         },
     }
-    battery::battery(tz, &[], false)
+    v.extend(battery::battery(tz, &[], false));
+    if v.is_empty() {
+        Res::Ok
+    } else {
+        Res::Many(v)
+    }
 }
 
 // ---------------------------------------------------------------------------
@@ -383,7 +405,7 @@ fn reparse_tz(s: &str) -> Result<TimeZone, jiff::Error> {
 fn p_time_zone(i: &[u8]) -> Res {
     match TP.parse_time_zone(i) {
         Err(_) => Res::Err,
-        Ok(tz) => wrap(chk_tz(&tz, reparse_tz)),
+        Ok(tz) => chk_tz(&tz, reparse_tz),
     }
 }
 fn reparse_posix(s: &str) -> Result<TimeZone, jiff::Error> {
@@ -393,7 +415,7 @@ fn p_posix(i: &[u8]) -> Res {
     let Ok(s) = std::str::from_utf8(i) else { return Res::Err };
     match TimeZone::posix(s) {
         Err(_) => Res::Err,
-        Ok(tz) => wrap(chk_tz(&tz, reparse_posix)),
+        Ok(tz) => chk_tz(&tz, reparse_posix),
     }
 }
 fn p_tspan(i: &[u8]) -> Res {
